@@ -136,6 +136,55 @@ def derived_objects(ctx, res):
             check("signed_again", prov, again)
 
 
+def after_failed_encoding(ctx, res):
+    """an encoding attempt that raises half-way (a field that does not fit its width, a missing signature) must leave nothing
+    behind: the next encodings and ids, of objects built before and after the failure, are what they would have been"""
+    from skepticoin.datatypes import Transaction, Input, Output, OutputReference
+    from skepticoin.signing import CoinbaseData, SECP256k1PublicKey
+    from skepticoin.networking.messages import HelloMessage, SupportedVersion, GetDataMessage, DATA_BLOCK
+    from ipaddress import IPv6Address
+    rng = ctx.rng
+
+    def failing():
+        k = rng.randrange(0, 4)
+        if k == 0:      # coinbase data longer than its one-byte length prefix can say
+            return "coinbase data of 256 bytes", Transaction(
+                [Input(OutputReference(bytes(32), 0), CoinbaseData(5, gens.rb(rng, 256)))], [Output(7, gens.pubkey(rng))])
+        if k == 1:      # an input without a signature object
+            return "input without signature", Transaction([Input(OutputReference(gens.rb(rng, 32), 1), None)],
+                                                          [Output(7, gens.pubkey(rng))])
+        if k == 2:      # a value outside the field's range, after other fields have been written
+            return "output value 2^64", Transaction([Input(OutputReference(gens.rb(rng, 32), 1), gens.signature(rng))],
+                                                    [Output(5, gens.pubkey(rng)), Output(1 << 64, gens.pubkey(rng))])
+        return "user agent of 300 bytes", HelloMessage([SupportedVersion(0)], IPv6Address(bytes(16)), 1, IPv6Address(bytes(16)), 2,
+                                                        3, gens.rb(rng, 300))
+
+    for _ in range(ctx.scale(24, 200)):
+        good = [gens.tx(rng), gens.block(rng), GetDataMessage(DATA_BLOCK, gens.rb(rng, 32))]
+        want = [g.serialize() for g in good]
+        what, bad = failing()
+        try:
+            bad.serialize()
+            res.count("failed_encoding:did_not_fail:" + what)
+            continue
+        except Exception:
+            pass
+        res.count("failed_encoding:" + what)
+        res.case(b"after-failed" + what.encode() + want[0])
+        fresh = Transaction(list(good[0].inputs), list(good[0].outputs))       # built in memory after the failure: no cached id
+        if fresh.hash() != sha256d(want[0]):
+            res.violations.append({"kind": "after a failed encoding (%s) a transaction built in memory gets an id that is not "
+                                           "sha256d of its encoding" % what, "id": fresh.hash().hex(),
+                                   "expected": sha256d(want[0]).hex(), "bytes": want[0].hex()})
+            continue
+        for g, w in zip(good, want):
+            got = g.serialize()
+            if got != w:
+                res.violations.append({"kind": "after a failed encoding (%s) a %s is encoded differently than before"
+                                               % (what, type(g).__name__), "before": w.hex()[:400], "after": got.hex()[:400]})
+                break
+
+
 def run(ctx):
     res = kit.Result()
     rng = ctx.rng
@@ -266,6 +315,7 @@ def run(ctx):
             res.evaluations += 1
 
     derived_objects(ctx, res)
+    after_failed_encoding(ctx, res)
     model = ctx.driver.ask(ops)
     kit.compare(res, ops, impl, model)
     # ---- ids of what comes back from the store (freely built blocks the store can hold)
